@@ -163,6 +163,7 @@ type profile struct {
 	wills                 bool
 	qos                   []packet.QOS
 	multiFilter           bool
+	oddTopics             bool // publishes also use topic names with empty levels
 }
 
 func pickW(r *gen.Rng, ws []int) int {
@@ -250,6 +251,10 @@ func randomScript(r *gen.Rng, o *out.W, prop string, p profile) {
 			}
 			sent++
 			tp := topics[r.Intn(len(topics)-3)+r.Intn(2)*0]
+			if p.oddTopics && r.Intn(4) == 0 {
+				// valid topic names with empty levels: each is a topic of its own ("a/" is not "a", "a//b" is not "a/b")
+				tp = []string{"a/", "a//b", "/", "/a", "a/b/"}[r.Intn(5)]
+			}
 			if p.wBad > 0 && r.Intn(5) == 0 {
 				tp = hostileTopics[r.Intn(len(hostileTopics))]
 			}
@@ -904,6 +909,50 @@ func c06Backlog(r *gen.Rng, o *out.W, prop string) {
 	o.Sample(fmt.Sprintf("backlog under %q, %d lines", f, len(w.trace)))
 }
 
+// more retained messages match a SUBSCRIBE than the session queue holds: the broker may give up on the subscriber
+// (it closes it), but it must not acknowledge the subscription and stay silent about part of the retained set
+func c11Overflow(r *gen.Rng, o *out.W) {
+	q := 2 + r.Intn(3)
+	w := newWorld(o, "C11", 1, q, nil)
+	p := w.Conn()
+	w.Connect(p, "P", true, nil, 0, "", "")
+	k := q + 3 + r.Intn(3)
+	for i := 0; i < k; i++ {
+		w.Publish(p, fmt.Sprintf("r/%d", i), packet.QOS(r.Intn(2)), true, false)
+	}
+	s := w.Conn()
+	w.Connect(s, "S", r.Bool(), nil, 0, "", "")
+	w.Subscribe(s, packet.Subscription{Topic: []string{"r/#", "r/+", "#"}[r.Intn(3)], QOS: packet.QOS(r.Intn(3))})
+	if w.alive(s) {
+		w.AckAll(s)
+	}
+	w.finish()
+	o.Distinct(strings.Join(w.trace, "\n"))
+	o.Sample(fmt.Sprintf("%d retained messages into a queue of %d, %d lines", k, q, len(w.trace)))
+}
+
+// the backend is shut down while nobody (or somebody) is connected; connections that arrive afterwards must be turned
+// away and released, not left hanging (C14: shutdown leaves nothing blocked)
+func c14AfterClose(r *gen.Rng, o *out.W) {
+	w := newWorld(o, "C14", 10, 100, nil)
+	if r.Bool() {
+		c := w.Conn()
+		w.Connect(c, "E", r.Bool(), nil, 0, "", "")
+		if r.Bool() {
+			w.Send(c, &packet.Disconnect{})
+		}
+	}
+	w.BackendClose()
+	for i, n := 0, 1+r.Intn(2); i < n; i++ {
+		c := w.Conn()
+		w.mustRelease = append(w.mustRelease, c)
+		w.Connect(c, []string{"E", "L"}[r.Intn(2)], r.Bool(), nil, 0, "", "")
+	}
+	w.finish()
+	o.Distinct(strings.Join(w.trace, "\n"))
+	o.Sample(fmt.Sprintf("connect after shutdown, %d lines", len(w.trace)))
+}
+
 // the publisher's own queue is full when its QoS 2 message is released (C07): the backend has already queued the
 // message for the sessions it visited first, then refuses; the publisher is closed with the message still stored and
 // the PUBREL it retransmits on the resumed session hands the message on a second time
@@ -1464,9 +1513,14 @@ func TestHarness(t *testing.T) {
 		}
 	case "C11":
 		rs("C11 retained", func() profile {
-			return profile{window: 10, queue: 100, clients: 2 + r.Intn(3), steps: 30 + r.Intn(40), wSub: 8, wUnsub: 1, wPub: 10, wAck: 6, wDrop: 1, wRecon: 2, retain: 60, wills: true, emptyWills: true, qos: all, multiFilter: true}
+			return profile{window: 10, queue: 100, clients: 2 + r.Intn(3), steps: 30 + r.Intn(40), wSub: 8, wUnsub: 1, wPub: 10, wAck: 6, wDrop: 1, wRecon: 2, retain: 60, wills: true, emptyWills: true, qos: all, multiFilter: true, oddTopics: true}
 		})
 		sc("C11 backlog", func(r *gen.Rng, o *out.W) { c06Backlog(r, o, "C11") })
+		if *fShard < 4 {
+			for i := 0; i < 8; i++ {
+				runCase(t, o, "C11 retained overflow", func() { c11Overflow(r, o) })
+			}
+		}
 		sc("C11 subscribe/publish storm", c11Storm)
 	case "C12":
 		sc("C12 termination", c12Script)
@@ -1483,6 +1537,11 @@ func TestHarness(t *testing.T) {
 			return profile{window: 2 + r.Intn(4), queue: 100, clients: 2 + r.Intn(4), steps: 30 + r.Intn(40), wSub: 4, wUnsub: 1, wPub: 8, wAck: 4, wDrop: 3, wRecon: 4, wRelease: 1, wPing: 1, wBad: 6, wFail: 3, retain: 20, wills: true, qos: all, multiFilter: true}
 		})
 		sc("C14 own queue", c14OwnQueue)
+		if *fShard < 4 {
+			for i := 0; i < 6; i++ {
+				runCase(t, o, "C14 connect after shutdown", func() { c14AfterClose(r, o) })
+			}
+		}
 		if *fShard < 4 {
 			runCase(t, o, "C14 slow subscriber", func() { c14SlowSubscriber(r, o) })
 		}
